@@ -52,10 +52,11 @@ HEADER = list(Triple.model_fields)
 @contextmanager
 def _get_file(path: str | Path, read: bool) -> Generator[TextIO, None, None]:
     path = Path(path).expanduser().resolve()
+    # newline="" is what the csv module requires, otherwise a carriage return inside a cell is lost
     if path.suffix == ".gz":
-        yield gzip.open(path, mode="rt" if read else "wt")
+        yield gzip.open(path, mode="rt" if read else "wt", newline="")
     else:
-        yield open(path, mode="r" if read else "w")
+        yield open(path, mode="r" if read else "w", newline="")
 
 
 def write_triples(
